@@ -1,6 +1,6 @@
 (** C20 — the finite statement about the regenerated schema/loader tables. *)
 From HV Require Import Base.Prelude C20.SchemaModel Gen.SchemaTables Gen.SchemaTablesOk.
-Open Scope string_scope.
+Local Open Scope string_scope.
 
 Lemma row_eqb_eq a b : row_eqb a b = true -> a = b.
 Proof.
